@@ -1,5 +1,7 @@
 package main
 
+import "fmt"
+
 // substVar rebuilds t with variable `name` replaced by repl (through the simplifying constructors).
 func substVar(t *Term, name string, repl *Term, memo map[int]*Term) *Term {
 	if r, ok := memo[t.id]; ok {
@@ -120,4 +122,122 @@ func instantiate(hyps []*Term, goal *Term) []*Term {
 		}
 	}
 	return out
+}
+
+// congruence adds, for every pair of applications of a window function (crc_fold, sha_absorbN, uf* with a
+// byte-slice argument) on different arrays, the skolemised instance of
+//   (forall k. 0<=k<n ==> A[oa+k] == B[ob+k]) /\ other args equal  ==>  f(..A,oa,n..) == f(..B,ob,n..)
+// This is the defining property of these functions (they depend only on the bytes of the window).
+func congruence(hyps []*Term, goal *Term) []*Term {
+	apps := map[string][]*Term{}
+	seen := map[int]bool{}
+	var visit func(t *Term)
+	visit = func(t *Term) {
+		if seen[t.id] {
+			return
+		}
+		seen[t.id] = true
+		if t.Op == "app" {
+			if _, ok := arrUF[t.Name]; ok {
+				apps[t.Name] = append(apps[t.Name], t)
+			}
+		}
+		for _, a := range t.Args {
+			visit(a)
+		}
+	}
+	for _, h := range hyps {
+		visit(h)
+	}
+	visit(goal)
+	var out []*Term
+	n := 0
+	for name, as := range apps {
+		ai := arrUF[name]
+		for i := 0; i < len(as); i++ {
+			for j := i + 1; j < len(as); j++ {
+				a, b := as[i], as[j]
+				if a.Args[ai] == b.Args[ai] && a.Args[ai+1] == b.Args[ai+1] {
+					continue // same window: plain congruence, the solver knows
+				}
+				if n >= 120 {
+					continue
+				}
+				n++
+				k := Var(fmt.Sprintf("k.cong!%d", n), BV(64))
+				var pre []*Term
+				for x := range a.Args {
+					if x == ai || x == ai+1 {
+						continue
+					}
+					pre = append(pre, Eq(a.Args[x], b.Args[x]))
+				}
+				diff := And(CmpBV("bvsle", Const(64, 0), k), CmpBV("bvslt", k, a.Args[ai+2]),
+					Ne(SelectT(a.Args[ai], Add(a.Args[ai+1], k)), SelectT(b.Args[ai], Add(b.Args[ai+1], k))))
+				out = append(out, Or(Not(And(pre...)), diff, Eq(a, b)))
+			}
+		}
+	}
+	return out
+}
+
+// unitPropagate simplifies hypotheses with the literals among them: disjuncts whose negation is asserted are
+// dropped, conjunctions are flattened, until nothing changes.  Purely propositional and equivalence preserving
+// for the conjunction of the hypotheses.
+func unitPropagate(hyps []*Term) []*Term {
+	cur := append([]*Term{}, hyps...)
+	for round := 0; round < 8; round++ {
+		lits := map[int]bool{} // term id asserted true
+		var flat []*Term
+		var add func(t *Term)
+		add = func(t *Term) {
+			if t.Op == "and" {
+				for _, a := range t.Args {
+					add(a)
+				}
+				return
+			}
+			if !lits[t.id] {
+				lits[t.id] = true
+				flat = append(flat, t)
+			}
+		}
+		for _, h := range cur {
+			add(h)
+		}
+		changed := false
+		var next []*Term
+		for _, h := range flat {
+			if h.Op != "or" {
+				next = append(next, h)
+				continue
+			}
+			var keep []*Term
+			sat := false
+			for _, d := range h.Args {
+				if lits[Not(d).id] {
+					changed = true
+					continue
+				}
+				if lits[d.id] {
+					sat = true
+				}
+				keep = append(keep, d)
+			}
+			if sat {
+				changed = true
+				continue
+			}
+			n := Or(keep...)
+			if n != h {
+				changed = true
+			}
+			next = append(next, n)
+		}
+		cur = next
+		if !changed {
+			break
+		}
+	}
+	return cur
 }
